@@ -63,11 +63,15 @@ class AddFn(PureFn):
     """methods of ADD: `self.<field>` / `result.<field>` are the variables `self_<field>` / `result_<field>`"""
 
     def field(self, e):
-        if isinstance(e, ast.Attribute) and isinstance(e.value, ast.Name) and e.value.id in ("self", "result"):
+        if isinstance(e, ast.Attribute) and isinstance(e.value, ast.Name) and e.value.id in ("self", "result", "other"):
             return "%s_%s" % (e.value.id, e.attr)
         return None
 
     def expr(self, e):
+        if isinstance(e, ast.BinOp) and isinstance(e.op, ast.Add):
+            (a_, ta_), (b_, tb_) = self.expr(e.left), self.expr(e.right)
+            if ta_ == VAL and tb_ == VAL:
+                return "(vadd %s %s)" % (a_, b_), VAL
         f = self.field(e)
         if f is not None:
             if f in self.env:
@@ -321,6 +325,119 @@ def gen_modelcount(tree):
     return txt, f
 
 
+DICT = "pairdict"
+_lty_base = lty
+
+
+def lty3(t):
+    if t == DICT:
+        return "(List ((Int × Int) × Int))"
+    if isinstance(t, tuple) and t[0] == "tuple":
+        return "(" + " × ".join(lty3(x) for x in t[1]) + ")"
+    return _lty_base(t)
+
+
+class SumFn(AddFn):
+    """ADD.sum: the product construction; the two dictionaries `pnodes` / `cnodes` ((node of self, node of other) -> node of the result) are insertion-ordered
+    association lists, `d.setdefault(key, len(d))` is `Np.setdefault`"""
+    NEW = "result = ADD(self.units, self.num_candidates, self.diameter * other.diameter, self.atype)"
+    FIELDS6 = FIELDS + [("diameter", INT)]
+
+    def special(self, s, ind):
+        u = U(s)
+        if u == self.NEW:
+            n, d, c = "(Np.len1 self_units)", "(self_diameter * other_diameter)", "self_num_candidates"
+            out = self.bind("result_units", "self_units", L1(INT), ind) + self.bind("result_root", "(0 : Int)", INT, ind)
+            out += self.bind("result_diameter", d, INT, ind)
+            out += self.bind("result_nodes", "(Np.zerosL2 %s %s)" % (n, d), L2(INT), ind)
+            out += self.bind("result_child", "(Np.full3 %s %s %s (0 : Int))" % (n, d, c), L3(INT), ind)
+            out += self.bind("result_adder", "(Np.full3 %s %s %s vzero)" % (n, d, c), L3(VAL), ind)
+            self.notes.append("`ADD(units, num_candidates, diameter, atype)`: root 0, nodes and child arrays of zeros, every edge value `atype(0)` (parameter `vzero`)")
+            return out
+        if isinstance(s, ast.AnnAssign) and isinstance(s.target, ast.Name) and s.target.id in ("pnodes", "cnodes"):
+            if U(s.value) == "{}":
+                return self.bind(s.target.id, "[]", DICT, ind)
+            if U(s.value) == "{(self.root, other.root): 0}":
+                return self.bind(s.target.id, "[((self_root, other_root), (0 : Int))]", DICT, ind)
+            raise Untranslatable("dictionary literal %s" % U(s.value))
+        if u == "cnodes = {}":
+            return self.bind("cnodes", "[]", DICT, ind)
+        if isinstance(s, ast.Assign) and isinstance(s.value, ast.Call) and U(s.value.func) == "cnodes.setdefault" and isinstance(s.targets[0], ast.Name):
+            a = s.value.args
+            if len(a) != 2 or U(a[1]) != "len(cnodes)" or not (isinstance(a[0], ast.Tuple) and len(a[0].elts) == 2):
+                raise Untranslatable("setdefault form")
+            k1, k2 = self.int_expr(a[0].elts[0]), self.int_expr(a[0].elts[1])
+            out = "%slet sd_ := Np.setdefault cnodes (%s, %s)\n" % (ind, k1, k2)
+            return out + self.bind("cnodes", "sd_.1", DICT, ind) + self.bind(s.targets[0].id, "sd_.2", INT, ind)
+        return None
+
+    def expr(self, e):
+        if isinstance(e, ast.Name) and self.env.get(e.id) == DICT:
+            return e.id, DICT
+        return AddFn.expr(self, e)
+
+    def bind(self, name, x, t, ind):
+        if name in self.env and self.env[name] != t:
+            raise Untranslatable("%s changes type from %r to %r" % (name, self.env[name], t))
+        self.env[name] = t
+        return "%slet %s : %s := %s\n" % (ind, name, lty3(t), x)
+
+    def tupty(self, names):
+        return lty3(("tuple", tuple(self.env[n] for n in names))) if len(names) > 1 else lty3(self.env[names[0]])
+
+    def unpack(self, names, src, ind):
+        out = ""
+        for k, n in enumerate(names):
+            proj = src if len(names) == 1 else src + ".2" * k + ("" if k == len(names) - 1 else ".1")
+            out += "%slet %s : %s := %s\n" % (ind, n, lty3(self.env[n]), proj)
+        return out
+
+    def stmt(self, s, ind):
+        if isinstance(s, ast.Assign) and len(s.targets) == 1 and isinstance(s.targets[0], ast.Name) and isinstance(s.value, ast.Name) and self.env.get(s.value.id) == DICT:
+            return self.bind(s.targets[0].id, s.value.id, DICT, ind)
+        return AddFn.stmt(self, s, ind)
+
+    def assigned(self, stmts):
+        names = AddFn.assigned(self, stmts)
+        for st in stmts:
+            for n in ast.walk(st):
+                if isinstance(n, ast.Call) and isinstance(n.func, ast.Attribute) and n.func.attr == "setdefault" and isinstance(n.func.value, ast.Name) \
+                        and n.func.value.id not in names:
+                    names.append(n.func.value.id)          # `d.setdefault(...)` may insert: d is loop-carried state
+        return names
+
+    def iterable(self, s):
+        it, tg = s.iter, s.target
+        if U(it) == "pnodes.items()" and U(tg) == "((i, j), k)":
+            return "pnodes", "(kv_ : (Int × Int) × Int)", [("i", INT, "kv_.1.1"), ("j", INT, "kv_.1.2"), ("k", INT, "kv_.2")]
+        return AddFn.iterable(self, s)
+
+    def block(self, stmts, ind, in_loop=None):
+        if stmts and U(stmts[0]) == "return result" and in_loop is None:
+            self.ret = ("tuple", tuple(t for _, t in self.FIELDS6))
+            return "%s(%s)\n" % (ind, ", ".join("result_" + f for f, _ in self.FIELDS6))
+        return AddFn.block(self, stmts, ind, in_loop)
+
+
+def gen_sum(tree):
+    fn = method(tree, "ADD", "sum")
+    if [a.arg for a in fn.args.args] != ["self", "other"]:
+        raise Untranslatable("signature of ADD.sum")
+    params = SELF_PARAMS + [("self_diameter", INT), ("self_num_candidates", INT)] + [("other_" + f, t) for f, t in FIELDS if f in ("root", "child", "adder")] + [("other_diameter", INT)]
+    f = SumFn(fn, params, lean_name="add_sum")
+    f.ret = None
+    T.lty = lty3
+    try:
+        body = f.block([s for s in fn.body], "  ")
+    finally:
+        T.lty = lty
+    ps = ["(%s : %s)" % (n, lty3(t)) for n, t in f.params]
+    txt = ("/-- translated from `ADD.sum` (returns the fields units, root, nodes, child, adder, diameter of the result; the asserted preconditions `self.units == other.units`,\n"
+           "`self.num_candidates == other.num_candidates` are hypotheses of the theorems) -/\n"
+           "def add_sum {ν : Type} [Inhabited ν] (vadd : ν → ν → ν) (vzero : ν) %s : %s :=\n%s" % (" ".join(ps), lty3(f.ret), body))
+    return txt, f
+
+
 DIAG, LOC, OPTI = "diag", "loc", T.OPTI
 _lty1 = lty
 
@@ -569,7 +686,7 @@ def generate(repo=REPO):
             tree = ast.parse(open(os.path.join(repo, "datascope/utility/add.py")).read())
         except SyntaxError as e:
             return HEADER + "end GenD\n", {"add.py": dict(ok=False, why="syntax: %s" % e)}
-        for name, job in (("ADD.restrict", gen_restrict), ("ADD.modelcount", gen_modelcount)):
+        for name, job in (("ADD.restrict", gen_restrict), ("ADD.modelcount", gen_modelcount), ("ADD.sum", gen_sum)):
             try:
                 txt, f = job(tree)
                 parts.append(txt)
